@@ -97,6 +97,9 @@ def cases(ctx):
             d2['delta'] = sorted(d2['delta'], key=lambda e: (rng.random(), e[1]))[::-1]
         if not thorough or ctx.mine(i):
             yield {'D1': d1, 'D2': d2, 'sched': [rng.randint(0, 6) for _ in range(8)]}
+    # a chain of 3000 states against a renamed copy and against a copy with one changed transition (no model; dfa_isomorphic1 only:
+    # the other routine builds a |Q1| x |Q2| table)
+    yield {'chain': 3000}
     # 12-13 numbered states: all pairs of rows for one state (the last one in breadth-first order, so that the numbering of the
     # others does not depend on its row); D1 = base with row r1, D2 = renamed base with row r2: isomorphic iff r1 = r2 (checked by the reference)
     for i in range(1 if not thorough else 6):
@@ -133,7 +136,7 @@ def row_pairs(c):
 
 
 def lean_requests(c):
-    if c.get('rows'):
+    if c.get('rows') or c.get('chain'):
         return []
     s = c.get('sched', [])
     return [{'op': 'dfa_isomorphic1', 'D1': c['D1'], 'D2': c['D2'], 'sched': s},
@@ -143,6 +146,18 @@ def lean_requests(c):
 
 
 def judge(ctx, c, answers):
+    if c.get('chain'):
+        n = c['chain']
+        mk = lambda pre, brk: {'Q': [pre + str(i) for i in range(n)], 'Sigma': ['a', 'b'], 'q0': pre + '0', 'F': [pre + str(n - 1)],
+                               'delta': [[pre + str(i), 'a', pre + str(min(i + 1, n - 1))] for i in range(n)] +
+                                        [[pre + str(i), 'b', pre + str(0 if i != brk else 1)] for i in range(n)]}
+        A, B, Cc = enc.build_dfa(mk('x', -1)), enc.build_dfa(mk('y', -1)), enc.build_dfa(mk('z', n - 2))
+        for X, Y, e in ((A, B, True), (A, Cc, False), (Cc, A, False)):
+            g = call(DA.dfa_isomorphic1, X, Y, limit=60)
+            if g != {'ok': e}:
+                ctx.violation('dfa_isomorphic1', {'case': c, 'impl': g, 'expected': e})
+        ctx.case(c, True)
+        return
     if c.get('rows'):
         n = 0
         for r1, r2, d1, d2 in row_pairs(c):
@@ -172,6 +187,18 @@ def judge(ctx, c, answers):
             ctx.violation(name, {'case': c, 'impl': got, 'expected': exp})
         elif la.get('ok') != exp:
             ctx.violation('correspondence:' + name, {'case': c, 'impl': got, 'model': la}, no_input=True)
+    # two DFA objects over the SAME transition table object (as DFA(D.Q, D.Sigma, D.delta, D.q0, F2) gives): only the reachable part counts
+    unreach = sorted(set(D1.Q) - oracles.reachable(D1))
+    if unreach:
+        from gambatools.dfa import DFA
+        F2 = set(D1.F) ^ {unreach[0]}
+        D3 = DFA(D1.Q, D1.Sigma, D1.delta, D1.q0, F2)
+        e3 = oracles.iso_ref(D1, D3)
+        for name, f in (('dfa_isomorphic1(shared table)', DA.dfa_isomorphic1), ('dfa_isomorphic(shared table)', DA.dfa_isomorphic)):
+            g3 = call(f, D1, D3, limit=5)
+            if g3 != {'ok': e3}:
+                ctx.violation(name, {'case': c, 'F2': sorted(F2), 'impl': g3, 'expected': e3})
+        ctx.count('shared-table')
     if exp:
         # consequences stated by the property
         if oracles.distinguish(D1, D2, D1.Sigma) is not None or len(oracles.reachable(D1)) != len(oracles.reachable(D2)):
